@@ -20,6 +20,7 @@ class Scheduler:
         self.taken = {}          # (signature, outcome) -> count, for the coverage policy
         self.used = []           # every resolution handed out, in order (the replay script)
         self.n_extreme = 0
+        self.n_boundary = 0
 
     def _signature(self, law):
         d = law.describe()
@@ -27,7 +28,19 @@ class Scheduler:
             return ("finite", len(d["points"]))
         return ("cont", d["name"])
 
-    def choose(self, law):
+    def choose(self, law, thresholds=None):
+        """thresholds: constants the drawn variable is later compared with (boundary-seeking resolutions)"""
+        if self.script is None and thresholds and law.kind == "cont" and self.policy != "uniform" and self.rng.random() < 0.3:
+            t = self.rng.choice(sorted(thresholds))
+            delta = self.rng.choice([1e-10, 1e-9, 1e-8, 1e-6, 1e-3]) * max(1.0, abs(t)) * self.rng.choice([-1, 1])
+            try:
+                u = law.cdf(t + delta)
+            except Exception:  # noqa
+                u = 0.0
+            if 1e-12 < u < 1 - 1e-12:
+                self.n_boundary += 1
+                self.used.append(u)
+                return u
         if self.script is not None:
             if self.pos < len(self.script):
                 u = float(self.script[self.pos])
